@@ -12,7 +12,7 @@ import (
 func init() {
 	register(&propDef{
 		ID:          "C17",
-		Explanation: "Decides, for the language server's document copy (cmd/templ/lspcmd/proxy): R1 in DidChange the call that applies the content changes dominates parsing, generation, the source-map cache update and the forwarded DidChange, and the text parsed is the String() of the document that Apply returned; in DidOpen the document is stored before parsing; R2 in Document.Apply the range is normalised before any classification predicate or line index is evaluated, and the normaliser clamps a position past the last line to the END of the last line (the branch that clamps a line coordinate also sets that position's character); R3 the three edit predicates (insert / delete / overwrite), evaluated exhaustively over the truth assignments of their atoms {end line = start line, end column = start column, text empty}, are pairwise disjoint and cover every state except (empty range, empty text); R4 every satisfying assignment of the whole-document predicate constrains the end line AND the end column of the range (a range whose end line is unconstrained cannot be known to cover the document), besides requiring start 0:0; R5 the document store applies changes under its mutex. R6 a field of Document that memoises a value computed from the text (returned when non-nil, filled otherwise) is reset in every method that writes the fields it was computed from (none exists on the pinned tree; a positive control keeps the detector live). R7 the transport's async handler releases the next message only from inside the reply wrapper (messages are handled in arrival order, so edits are applied in the order sent). R1 also: DidOpen / DidChange have no `return nil` that the update of the cached document does not dominate. R8 the range normaliser is called only inside Document.Apply (each change of a batch is clamped against the document as the previous change left it). NOT decided: the splice arithmetic of Insert/Delete/Overwrite on concrete texts, UTF-16 column units. R9 the server advertises full-text synchronisation (its formatting handler replaces its own copy before the editor applies the edit). R10/R11 no error result of the LSP proxy is dropped or detected and then not reported. NOT decided: the arithmetic of line/column edits (Overwrite / DeleteLines index conventions). R12 every access to a string-keyed map held in a struct field of the proxy computes its key the same way (all raw, or all through the same normalising function). R13 the function that applies a didChange batch loops over every change (no filter, no early exit) and has no successful return in front of that loop; R14 (= C09.R8) the formatting edit's range covers the document the editor holds: it is computed before the server's copy is replaced (a range helper is followed); R15 the whole-document predicate compares the end line with len(Lines)-1, followed through accessors (a·len(Lines)+b evaluated through d.Len(), locals and conversions). R16 the change list DidChange hands to the document store's Apply is the notification's ContentChanges itself (no slice expression, filter or picked element on the way).",
+		Explanation: "Decides, for the language server's document copy (cmd/templ/lspcmd/proxy): R1 in DidChange the call that applies the content changes dominates parsing, generation, the source-map cache update and the forwarded DidChange, and the text parsed is the String() of the document that Apply returned; in DidOpen the document is stored before parsing; R2 in Document.Apply the range is normalised before any classification predicate or line index is evaluated, and the normaliser clamps a position past the last line to the END of the last line (the branch that clamps a line coordinate also sets that position's character); R3 the three edit predicates (insert / delete / overwrite), evaluated exhaustively over the truth assignments of their atoms {end line = start line, end column = start column, text empty}, are pairwise disjoint and cover every state except (empty range, empty text); R4 every satisfying assignment of the whole-document predicate constrains the end line AND the end column of the range (a range whose end line is unconstrained cannot be known to cover the document), besides requiring start 0:0; R5 the document store applies changes under its mutex. R6 a field of Document that memoises a value computed from the text (returned when non-nil, filled otherwise) is reset in every method that writes the fields it was computed from (none exists on the pinned tree; a positive control keeps the detector live). R7 the transport's async handler releases the next message only from inside the reply wrapper (messages are handled in arrival order, so edits are applied in the order sent). R1 also: DidOpen / DidChange have no `return nil` that the update of the cached document does not dominate. R8 the range normaliser is called only inside Document.Apply (each change of a batch is clamped against the document as the previous change left it). NOT decided: the splice arithmetic of Insert/Delete/Overwrite on concrete texts, UTF-16 column units. R9 the server advertises full-text synchronisation (its formatting handler replaces its own copy before the editor applies the edit). R10/R11 no error result of the LSP proxy is dropped or detected and then not reported. NOT decided: the arithmetic of line/column edits (Overwrite / DeleteLines index conventions). R12 every access to a string-keyed map held in a struct field of the proxy computes its key the same way (all raw, or all through the same normalising function). R13 the function that applies a didChange batch loops over every change (no filter, no early exit) and has no successful return in front of that loop; R14 (= C09.R8) the formatting edit's range covers the document the editor holds: it is computed before the server's copy is replaced (a range helper is followed); R15 the whole-document predicate compares the end line with len(Lines)-1, followed through accessors (a·len(Lines)+b evaluated through d.Len(), locals and conversions). R16 the change list DidChange hands to the document store's Apply is the notification's ContentChanges itself (no slice expression, filter or picked element on the way). R17 the table of line lengths that positions are clamped against holds byte lengths (len of the line), the unit in which Document's methods cut lines at a column.",
 		Assumptions: []string{"atoms of the predicates are independent comparisons (truth table over uninterpreted atoms)"},
 		Trusted:     []string{"go/types", "x/tools go/packages, go/cfg"},
 		Run:         runC17,
@@ -31,6 +31,7 @@ func runC17(c *Ctx) {
 	formatEditCoversDocument(c, "C17.R14")
 	wholeDocumentEndsAtTheLastLine(c, "C17.R15")
 	changesHandedOnWhole(c, "C17.R16")
+	lineLengthsAreByteLengths(c, "C17.R17")
 	p := c.pkg("cmd/templ/lspcmd/proxy")
 	info := p.TypesInfo
 
